@@ -615,9 +615,15 @@ def _oa_stop(c):
     if c.verifying:
         def expected(k, r, st):
             fn = z3.simplify(Rec.fn(r)).as_string()
-            if fn == '_event_put': return [('stop_data_first', k == 0)]
-            if fn == 'put_nowait': return [('then_the_sentinel', And(Rec.a0(r) == Val.VNone, k == If(queued, 1, 0)))]
-            if fn == 'super.stop': return [('then_the_inherited_stop', k == If(queued, 2, 1))]
+            g = st.ghost
+            if fn == '_event_put':
+                goals = [('stop_data_before_the_sentinel', BoolVal(not g['sentinel'] and not g['data_put']))]; g['data_put'] = True
+                return goals
+            if fn == 'put_nowait':
+                goals = [('the_sentinel_after_the_stop_data', And(Rec.a0(r) == Val.VNone, BoolVal(not g['sentinel']), Implies(queued, BoolVal(g['data_put']))))]
+                g['sentinel'] = True
+                return goals
+            if fn == 'super.stop': return [('the_inherited_stop_once', BoolVal(True))]       # (its position does not matter)
             return [('no_other_call', BoolVal(False))]
         c.expect_trace(expected, 3, normal_len=If(queued, 3, 2), predicate=True)
 
@@ -701,9 +707,9 @@ def _oa_start(c):
     if c.verifying:
         def expected(k, r, st):
             fn = z3.simplify(Rec.fn(r)).as_string()
-            if fn == 'super.start': return [('inherited_start_first', k == 0)]
+            if fn == 'super.start': return [('inherited_start_once', BoolVal(True))]          # (its position does not matter)
             if fn == 'create_monitored_task':
-                return [('one_monitored_control_task_running_the_selected_strategy', And(k == 1, Rec.a0(r) == Val.S(c.pre('_ctrl_coro', me))))]
+                return [('one_monitored_control_task_running_the_selected_strategy', Rec.a0(r) == Val.S(c.pre('_ctrl_coro', me)))]
             return [('no_other_call', BoolVal(False))]
         c.expect_trace(expected, 2, normal_len=2, predicate=True)
         c.ensures('control_task_remembered', Val.is_Obj(c.post('_ctrl_task', me)))
@@ -711,7 +717,7 @@ def _oa_start(c):
 
 def verify_stop_start(run):
     H = {'eq': oa_eq_hook}
-    run.verify('OutputAsync.stop', cls='OutputAsync', calls={'super().stop': super_stop}, hooks=H)
+    run.verify('OutputAsync.stop', cls='OutputAsync', calls={'super().stop': super_stop}, hooks=H, ghost={'sentinel': False, 'data_put': False})
     run.verify('OutputAsync.stop_async', cls='OutputAsync', ghost={'ctrl_awaited': False, 'now': z3.Real('now0')},
                hooks=dict(H, **{'await': awaits({'self._ctrl_task': await_ctrl_task, 'super().stop_async()': await_super_stop_async,
                                                    '*': lambda ex, node, st: ex.ev(node, st)})}))
